@@ -54,6 +54,8 @@ def run(tier, seed, rng):
     cov = Coverage('data x model decompositions in {1,2,4} x {1,2,4} (pipe 2 in the thorough tier), column- and row-parallel layers, bias '
                    'on/off, bucketed or not, clipping off / active, 1-3 steps, exact integer data in float64; non-trivial = M > 1 and D > 1; distinct by hash')
     failures: list[Failure] = []
+    from harness.props import C03
+    projq = []
     n = 50 if tier == 'quick' else 500
     worst = 0.0
     for k in range(n):
@@ -70,6 +72,7 @@ def run(tier, seed, rng):
             failures.append(Failure(what=f'run failed: {w.errors[:1]} {w.deadlock} {dict(list(w.exceptions.items())[:2])}'[:500], case=case,
                                     oracle_rejects=True, correspondence=CORRESPONDENCES[0], theorems=THEOREMS, oracle='run completes on every rank'))
             continue
+        projq.append((case, C03.encode_logs(w, W)))
         ref = neoxrun.reference(cfg, hist)
         probs, clipprobs, diffs = [], [], []
         trains = [i for i, e in enumerate(hist) if e[0] == 'train']
@@ -148,6 +151,7 @@ def run(tier, seed, rng):
             failures.append(Failure(what=clipprobs[0][:500], case=case, impl=clipprobs[:6], model='clip_sharded_refuted', oracle_rejects=True,
                                     correspondence=CORRESPONDENCES[0], theorems=['clip_sharded_refuted'], signature='neox-clip-M>1',
                                     oracle='unsharded single-process run with clipping'))
+    failures += C03.check_proj(projq, CORRESPONDENCES[0], cov)
     cov.extra['max_rel_err_vs_unsharded'] = worst
     return cov, failures
 
